@@ -79,9 +79,9 @@ def _parse_flat_metadata(contents: str) -> DistInfo:
     for line in contents.split("\n"):
         lower_line = line.lower()
         if name is None and lower_line.startswith("name:"):
-            name = line.split(":")[1].strip()
+            name = line.partition(":")[2].strip()
         elif version is None and lower_line.startswith("version:"):
-            version = utils.parse_version(line.split(":")[1].strip())
+            version = utils.parse_version(line.partition(":")[2].strip())
         elif lower_line.startswith("requires-dist:"):
             raw_reqs.append(line.partition(":")[2].strip())
 
